@@ -53,6 +53,25 @@ def check_config(cfg, acc):
         acc.violation(driver="lattice", config=cfg, fields={**F, "what": what}, kind=kind,
                       observed=obs, expected=exp, **kw)
 
+    _flows(S, case, cfg, acc, viol, gaussian, cls, sts, "as_constructed")
+    # the metric is a public attribute which the metric adapters re-assign on a live system:
+    # after that the flows must be those of the NEW metric (no value derived from the old one
+    # may survive on the system object)
+    names = [m for m in zoo.metric_names(d, include_implicit=False) if m != cfg["metric"]]
+    alt = names[(len(cfg["metric"]) + d) % len(names)]
+    case_b = zoo.build_case(dict(cfg, metric=alt))
+    S.metric = case_b.system.metric
+    _flows(S, case_b, dict(cfg, metric_reassigned_to=alt), acc,
+           lambda kind, what, obs, exp, **kw: viol(kind, "after_metric_reassignment:" + what, obs,
+                                                   exp, new_metric=alt, **kw),
+           gaussian, cls, sts[:1], "metric_reassigned")
+    acc.count("cases")
+    if len(acc.samples) < 3:
+        acc.sample({"config": cfg, "times": TIMES})
+
+
+def _flows(S, case, cfg, acc, viol, gaussian, cls, sts, label):
+    d = case.d
     Md = case.metric_ref(sts[0][0])
     cond = np.linalg.cond(Md)
     for si, (q, p) in enumerate(sts):
@@ -68,6 +87,17 @@ def check_config(cfg, acc):
                     viol("h1_flow", "h1_flow_moves_position", st.pos, q, t=t, state=si)
                 elif maxerr(st.mom, p - t * g) > 2e-6 * abs(t) * (1 + np.max(np.abs(g))):
                     viol("h1_flow", "h1_flow_kick", st.mom, p - t * g, t=t, state=si)
+                else:
+                    # the kick is the same every time it is applied at this position: again on
+                    # the same state object, and on a copy of it (additivity in time)
+                    cp = st.copy()
+                    S.h1_flow(st, 0.5 * t)
+                    S.h1_flow(cp, -t)
+                    if maxerr(st.mom, p - 1.5 * t * g) > 3e-6 * abs(t) * (1 + np.max(np.abs(g))):
+                        viol("h1_flow", "h1_flow_second_kick_on_same_state", st.mom,
+                             p - 1.5 * t * g, t=t, state=si)
+                    elif maxerr(cp.mom, p) > 3e-6 * abs(t) * (1 + np.max(np.abs(g))):
+                        viol("h1_flow", "h1_flow_not_undone_on_copy", cp.mom, p, t=t, state=si)
             except Exception as e:  # noqa: BLE001
                 viol("exception", "h1_flow:" + type(e).__name__, repr(e)[:200], "flow", t=t)
             # ---- h2 flow
@@ -87,7 +117,7 @@ def check_config(cfg, acc):
             e0, e1 = case.h2_ref(q, p), case.h2_ref(np.array(st.pos), np.array(st.mom))
             if abs(e1 - e0) > 1e-10 * (1 + abs(e0)) * cond * max(1.0, abs(t)):
                 viol("h2_flow", "h2_energy_conservation", e1, e0, t=t, state=si)
-            acc.outcome((cls, cfg["metric"], t, si, round(float(np.sum(st.pos)), 9)))
+            acc.outcome((cls, cfg["metric"], label, t, si, round(float(np.sum(st.pos)), 9)))
             # inverse
             try:
                 S.h2_flow(st, -t)
@@ -123,9 +153,6 @@ def check_config(cfg, acc):
                 except Exception as e:  # noqa: BLE001
                     viol("exception", "dh2_flow_dmom:" + type(e).__name__, repr(e)[:200],
                          "matrices", t=t)
-    acc.count("cases")
-    if len(acc.samples) < 3:
-        acc.sample({"config": cfg, "times": TIMES})
 
 
 def run(tier, seed, acc):
